@@ -117,3 +117,40 @@ impl Service {
         res.into_iter()
     }
 }
+
+#[cfg(feature = "verif-hooks")]
+impl Service {
+    pub(crate) fn verif_snapshot(
+        &self,
+        object_uuid: [u8; 16],
+        service_uuid: [u8; 16],
+    ) -> crate::verif::VerifService {
+        fn sorted<T: Ord>(mut v: Vec<T>) -> Vec<T> {
+            v.sort();
+            v
+        }
+
+        crate::verif::VerifService {
+            object_uuid,
+            service_uuid,
+            cookie: *self.cookie.0.as_bytes(),
+            object_cookie: *self.object_cookie.0.as_bytes(),
+            function_calls: sorted(self.function_calls.iter().copied().collect()),
+            events: sorted(
+                self.events
+                    .iter()
+                    .map(|(ev, conns)| {
+                        (*ev, sorted(conns.iter().map(ConnectionId::verif_id).collect()))
+                    })
+                    .collect(),
+            ),
+            all_events: sorted(self.all_events.iter().map(ConnectionId::verif_id).collect()),
+            subscriptions: sorted(
+                self.subscriptions
+                    .iter()
+                    .map(ConnectionId::verif_id)
+                    .collect(),
+            ),
+        }
+    }
+}
